@@ -459,7 +459,10 @@ class MarkdownNormalizer(Renderer):
             # Configure the appropriate prefix based on list type
             if element.ordered:
                 num = i + element.start
-                prefix = f"{num}. "
+                # Keep the delimiter as written: `1.` and `1)` lists are different lists, and
+                # two adjacent ones would merge into one if both were written with `.`.
+                delimiter = ")" if str(element.bullet).endswith(")") else "."
+                prefix = f"{num}{delimiter} "
                 subsequent_indent = " " * (len(str(num)) + 2)
             else:
                 prefix = f"{element.bullet} "
